@@ -215,7 +215,11 @@ static void end_pushes (void) {
 static void initialize_push (void) {
 
   int what = mem_block[current_block].block[push_start];
-  int arg = mem_block[current_block].block[push_start + 1];
+  int arg = 0;
+
+  /* F_CONST0 / F_CONST1 have no operand byte: the byte after them may lie outside the block */
+  if (what != F_CONST0 && what != F_CONST1)
+    arg = mem_block[current_block].block[push_start + 1];
 
   prog_code = mem_block[current_block].block + push_start;
   ins_byte (F_PUSH);
